@@ -71,6 +71,10 @@ pub const WIN_OTHER: u16 = 0x1fff & !(WIN_LOADS | WIN_WRITES | (1 << 5));
 pub const MEM_KINDS: u16 = 0x0e07;
 
 pub fn configure(max_depth: u8, budget: u8, kinds: u16, per_site: u8) {
+    // smoke mode (--cfg mq_smoke, development only): no injection at all, i.e. every scenario
+    // degenerates to one sequential execution; used to debug harness logic cheaply
+    #[cfg(mq_smoke)]
+    let budget = 0 * budget;
     let s = st();
     s.enabled = false;
     s.depth = 0;
